@@ -515,4 +515,24 @@ def run(ctx, case):
 
 SUBS = [Sub("fault-histories", run, kind="machine", machine=machine, budget=(60, 2000), shards=(4, 16), steps=(12, 30),
             rule="histories reaching states; at every inject step all applicable (cause x path x position) refusals are enumerated")]
+def enum_holes(tier):
+    """every geometry of ONE unused slot between live blocks for 2..5 live blocks (all of types the library can write, in several orders),
+    with and without spare slots behind the last live block; at each state every applicable refusal is injected once"""
+    import itertools
+
+    def blk(kind):
+        return {"kind": "spec", "spec": labelled_spec(kind, 1) if kind in LABELLED or kind in ("platData", "data2D") else container_min(kind), "comment": kind, "cdate": 1, "mdate": 2, "adate": 3}
+
+    kinds = ["events", "emg", "data3D", "platCal", "optical"]
+    for L in (2, 3, 4, 5):
+        for order in list(itertools.permutations(kinds[:L]))[:6]:
+            for hole in range(0, L - 1):
+                for spare in (0, 1, 3):
+                    yield {"init": {"source": "image", "N": L + 1 + spare, "blocks": [blk(k) for k in order], "version": 1, "dates": [0, 0, 0], "fill": ["zero", 0], "hole": hole},
+                           "ops": [{"op": "inject", "seed": hole + spare}], "_script": f"hole|live={L}|at={hole}|spare={spare}|{'-'.join(order)}"}
+
+
+SUBS.append(Sub("hole-geometries", run, kind="enum", enumerate=enum_holes, shards=(8, 16),
+                rule="files with one unused slot between live blocks: 2..5 live blocks x up to 6 orders x every hole position x 0 / 1 / 3 spare slots; every applicable refusal "
+                     "(all causes x add / replace / setter / remove) injected at each; finite, enumerated", nontrivial_required=False))
 TIME_BUDGET = {"quick": 150, "thorough": 1500}
